@@ -57,6 +57,37 @@ func main() {
 				}
 			}
 		}
+	case "k2":
+		rules.K2(rc, fams, nil, 0)
+		n := 0
+		seenFam := map[string]bool{}
+		for _, o := range s.Obs {
+			if o.Verdict != core.OK {
+				n++
+				fam := strings.Split(o.Key, ":")[0]
+				if !seenFam[fam] {
+					seenFam[fam] = true
+					fmt.Println(o.V, o.Rule, o.Key, o.Sig)
+				}
+			}
+		}
+		fmt.Println("obligations", len(s.Obs), "bad", n, time.Since(t0))
+	case "k8":
+		rules.K8(rc, 0)
+		for _, o := range s.Obs {
+			if o.Verdict != core.OK {
+				fmt.Println(o.V, o.Rule, o.Key, o.Detail)
+			}
+		}
+		fmt.Println("obligations", len(s.Obs), time.Since(t0))
+	case "k9":
+		rules.K9(rc, fams, 0)
+		for _, o := range s.Obs {
+			if o.Verdict != core.OK {
+				fmt.Println(o.V, o.Rule, o.Key, o.Detail)
+			}
+		}
+		fmt.Println("obligations", len(s.Obs), time.Since(t0))
 	case "k3":
 		rules.K3(rc, nil, 0, 0)
 		for _, o := range s.Obs {
